@@ -62,12 +62,15 @@ def run(ctx):
         M("MCCacheLayers.cfg", workers=w, timeout=900)
         M("MCasbuilt.cfg", workers=w, timeout=900)
     else:
-        M("MCtqT.cfg", workers=w, timeout=3000)
-        M("MCtq3T.cfg", workers=w, timeout=3000)
-        M("MCidealT.cfg", workers=w, timeout=3000)
-        M("MCfixedT.cfg", workers=w, timeout=3000)
-        M("MCasbuiltT.cfg", workers=w, timeout=3000)
-        M("MCasbuilt2T.cfg", workers=w, timeout=3000, coverage=True, allow_zero=("BChk",))
+        w = 4
+        M("MCtqT.cfg", workers=w, timeout=7200)
+        M("MCtq3T.cfg", workers=w, timeout=7200)
+        M("MCidealT.cfg", workers=w, timeout=7200)
+        M("MCfixedT.cfg", workers=w, timeout=7200)
+        M("MCasbuiltT.cfg", workers=w, timeout=7200)
+        # coverage: vlib flags an action with zero count in ANY periodic snapshot; only the final one counts,
+        # so vlib's test is disabled (allow_zero = every action) and the final snapshot is judged below
+        mc.append(pool.submit(mc_with_coverage, ctx, "MCasbuilt2T.cfg", w, 7200))
 
     # ---------------------------------------------------------------- generators + build (parallel)
     files = ["blockstore/zz_verif_C02_test.go"] + (["blockstore/zz_verif_C02_hooks_test.go"] if hooks else [])
@@ -155,6 +158,34 @@ def run(ctx):
     for f in mc:
         f.result()
     pool.shutdown()
+
+
+ACTIONS = ("BAct BAdd BAddLoad BChk BLoad BTest ELoop EStart Evict Invoke InvokeAny MAdd MAddLoad MExit MLock MOp MQuery "
+           "MUnlock MUpd Micro QLock QQuery QUpd RAct RDeact RFail RMu RSwap SExit SOp UTgt Return Next").split()
+# not reachable in the coverage configuration by construction: BChk exists only in the repaired order, Evictions are
+# off there, and with Coarse = TRUE lock/call/exit are one step (the separate steps run in the Gen configurations)
+EXPECT_ZERO = {"BChk", "Evict", "QLock", "SExit", "MLock", "MExit"}
+
+
+def mc_with_coverage(ctx, cfg, workers, timeout):
+    res = ctx.tlc_mc("CacheLayers", "MCCacheLayers.tla", cfg, workers=workers, timeout=timeout,
+                     coverage=True, allow_zero=tuple(ACTIONS))
+    out = res["out"]
+    i = out.rfind("The coverage statistics")
+    if not res["ok"] or i < 0:
+        if res["ok"]:
+            ctx.broken("no coverage statistics in the output of %s" % cfg)
+        return res
+    tot = {}
+    for m in re.finditer(r"<(\w+) line \d+, col \d+ to line \d+, col \d+ of module CacheLayers(?: \([\d ]+\))?>: (\d+):(\d+)", out[i:]):
+        tot[m.group(1)] = tot.get(m.group(1), 0) + int(m.group(3))
+    zero = sorted(a for a, n in tot.items() if n == 0 and a not in EXPECT_ZERO and a != "Init")
+    missing = sorted(a for a in ("SOp", "QUpd", "BTest", "BAdd", "MOp", "MAdd", "RSwap", "ELoop", "RAct", "RFail") if a not in tot)
+    if zero or missing:
+        ctx.broken("vacuous: actions never taken in %s: %s (not reported: %s)" % (cfg, zero, missing))
+    else:
+        ctx.log("coverage %s: %d actions, zero only %s" % (cfg, len(tot), sorted(a for a, n in tot.items() if n == 0)))
+    return res
 
 
 def corrupt(recs):
